@@ -163,6 +163,22 @@ pub fn try_build_block(
     })
 }
 
+/// The dao field the production calculator gives for `block`'s body on top of `shared`'s tip
+/// (the block's parent). None if the body does not resolve there. Lets a harness keep a mutant
+/// block consistent in everything except the one rule it breaks.
+pub fn recompute_dao(shared: &Shared, block: &BlockView) -> Option<Byte32> {
+    let snapshot = shared.snapshot();
+    let parent = snapshot.tip_header().clone();
+    if parent.hash() != block.parent_hash() {
+        return None;
+    }
+    let rtxs = resolve_block(&snapshot, block).ok()?;
+    let dl = snapshot.borrow_as_data_loader();
+    DaoCalculator::new(snapshot.consensus(), &dl)
+        .dao_field(rtxs.iter().map(AsRef::as_ref), &parent)
+        .ok()
+}
+
 /// Find a nonce satisfying the PoW engine (no-op for Dummy). Only the nonce is touched (no
 /// builder that would re-derive or assert other header fields).
 pub fn seal(consensus: &ckb_chain_spec::consensus::Consensus, block: BlockView) -> BlockView {
